@@ -23,8 +23,9 @@ int main()
   Sched const scheds[4] = {{"minutely/1", 'M', 1, nullptr, 60}, {"minutely/7", 'M', 7, nullptr, 420}, {"hourly/1", 'H', 1, nullptr, 3600}, {"daily 02:00", 0, 0, "02:00", 86400}};
   Obl o1{"time_rotation.separated_at_points", "C15", "", "two statements share a file exactly when no scheduled rotation point (first point after the start, then every period) lies between them"};
   Obl o2{"time_rotation.whole_in_order", "C15", "", "the files, oldest first, hold the statements whole and in order"};
+  Obl o4{"time_rotation.named_after_open_moment", "C15", "", "naming scheme DateAndTime: each rotated file is named r.<YYYYMMDD_HHMMSS>.log after the moment it was opened (the start instant for the first file, the statement that caused the rotation for the others)"};
   long n = 0;
-  for (int64_t S : starts) for (Sched const& sc : scheds)
+  for (int naming = 0; naming < 2; ++naming) for (int64_t S : starts) for (Sched const& sc : scheds)
   {
     // first point strictly after S, then every period
     int64_t P0;
@@ -40,6 +41,7 @@ int main()
       std::vector<std::string> stmts; std::vector<int64_t> at;
       {
         quill::RotatingFileSinkConfig cfg; cfg.set_open_mode('w'); cfg.set_timezone(quill::Timezone::GmtTime);
+        if (naming == 1) cfg.set_rotation_naming_scheme(quill::RotatingFileSinkConfig::RotationNamingScheme::DateAndTime);
         if (sc.daily) cfg.set_rotation_time_daily(sc.daily); else cfg.set_rotation_frequency_and_interval(sc.freq, sc.interval);
         quill::RotatingFileSink sink(dir / "r.log", cfg, quill::FileEventNotifier{}, std::chrono::system_clock::time_point{std::chrono::seconds{S}});
         for (size_t k = 0; k < pick.size(); ++k)
@@ -57,7 +59,8 @@ int main()
         if (name == "r.log") idx = 0; else if (name.rfind("r.", 0) == 0 && name.size() > 6) idx = atol(name.substr(2, name.size() - 6).c_str());
         files.push_back({idx, e.path()});
       }
-      std::sort(files.begin(), files.end(), [](auto const& a, auto const& b) { return a.first > b.first; });
+      if (naming == 0) std::sort(files.begin(), files.end(), [](auto const& a, auto const& b) { return a.first > b.first; });
+      else std::sort(files.begin(), files.end(), [](auto const& a, auto const& b) { bool ca = a.second.filename() == "r.log", cb = b.second.filename() == "r.log"; if (ca != cb) return cb; return a.second.filename().string() < b.second.filename().string(); });
       // expected grouping: a new file starts at statement k iff a point lies in (at[k-1], at[k]] (for k = 0: in (S, at[0]])
       auto point_between = [&](int64_t lo, int64_t hi) { if (hi < P0) return false; int64_t k = (hi - P0) / sc.period_s; int64_t p = P0 + k * sc.period_s; return p > lo; };
       std::vector<std::string> expect; std::string cur;
@@ -70,8 +73,18 @@ int main()
       expect.push_back(cur);
       std::vector<std::string> got; std::string cat, all; for (auto const& f : files) { std::string c = slurp(f.second); if (!c.empty()) got.push_back(c); cat += c; } for (auto const& s : stmts) all += s;
       std::string in = std::string(sc.name) + " start=" + std::to_string(S - DAY0) + "s instants(rel. first point)="; for (auto x : at) in += std::to_string(x - P0) + ",";
+      if (naming == 1) in = "DateAndTime " + in;
       check(o2, cat == all, in);
       check(o1, got == expect, in + " files=" + std::to_string(got.size()) + " expected=" + std::to_string(expect.size()));
+      if (naming == 1)
+      {
+        // open moments: S for the first file, then the instant of the first statement of every later group; the last group is r.log
+        std::vector<int64_t> opened = {S}; for (size_t k = 0; k < stmts.size(); ++k) if (point_between(k == 0 ? S : at[k - 1], at[k]) && k > 0) opened.push_back(at[k]);
+        // (a rotation point that passes while the file is still empty does not rotate: the file keeps the moment it was opened, S)
+        std::vector<std::string> want_names; for (size_t i = 0; i + 1 < opened.size(); ++i) { time_t tt = (time_t)opened[i]; tm g{}; gmtime_r(&tt, &g); char b[64]; strftime(b, sizeof b, "r.%Y%m%d_%H%M%S.log", &g); want_names.push_back(b); }
+        std::vector<std::string> got_names; std::string listing; for (auto const& f : files) { std::string nm = f.second.filename().string(); listing += nm + " "; if (nm != "r.log" && fs::file_size(f.second) > 0) got_names.push_back(nm); }
+        check(o4, got_names == want_names, in + " files: " + listing);
+      }
     });
   }
   // ---- local time across daylight saving switches: daily at HH:MM in the sink's (= the process') time zone
@@ -106,9 +119,9 @@ int main()
   }
   setenv("TZ", "UTC", 1); tzset();
   fs::remove_all(base);
-  printf("SPACE 4 start instants x {minutely/1, minutely/7, hourly/1, daily 02:00} (GMT) x every increasing sequence of <= %d statement instants from an 8-point grid around the rotation points (incl. 11 periods later); plus daily rotation in LOCAL time at 4 times of day across 5 daylight saving switches in 3 zones; on real files\n", LEN);
+  printf("SPACE {Index, DateAndTime naming} x 4 start instants x {minutely/1, minutely/7, hourly/1, daily 02:00} (GMT) x every increasing sequence of <= %d statement instants from an 8-point grid around the rotation points (incl. 11 periods later); plus daily rotation in LOCAL time at 4 times of day across 5 daylight saving switches in 3 zones; on real files\n", LEN);
   printf("DISTINCT %ld\n", n);
   printf("SAMPLE daily 02:00 start=39570s instants=-1,0,86400\n");
-  report(o1); report(o2); report(o3);
-  return (o1.failed || o2.failed || o3.failed) ? 1 : 0;
+  report(o1); report(o2); report(o3); report(o4);
+  return (o1.failed || o2.failed || o3.failed || o4.failed) ? 1 : 0;
 }
